@@ -46,7 +46,7 @@ Honoured(x) ==
   /\ x.terminated
   /\ (e.ok /\ ~e.may /\ ~Exotic(x.s) => x.ok)         \* what the notation expresses and the key contains converts
   /\ (~e.ok /\ ~Exotic(x.s) => ~x.ok)                  \* nonsense is refused
-  /\ (x.ok /\ e.ok => OutEq(x.out, e.out))             \* never a different meaning
+  /\ (x.ok /\ e.ok /\ ~Exotic(x.s) => OutEq(x.out, e.out))             \* never a different meaning
   /\ (~x.ok => x.exit # 0)                             \* a refusal is a failing run (its looks are C09's business)
 
 \* ------------------------------------------------------------------ C11
@@ -60,7 +60,7 @@ DriverClaimC11 == R.kind = "pair" =>
                     LET a == Lex(R.a.s)  b == Lex(R.b.s) IN ~a.err /\ ~b.err /\ AbsToks(a.toks) = AbsToks(b.toks)
 C11Inv == R.kind = "pair" =>
             /\ (IF Exotic(R.a.s) \/ Exotic(R.b.s)
-                THEN (R.a.ok /\ R.b.ok => R.sameBytes)     \* (blanks the statement does not name: agreement where both are accepted)
+                THEN TRUE     \* (a blank the statement does not name may as well be a character of a symbol: nothing to demand)
                 ELSE R.a.ok = R.b.ok /\ R.sameBytes)        \* spelling variants: byte-identical result
             /\ Honoured(R.a) /\ Honoured(R.b)            \* and an accepted accidental is honoured
 
